@@ -52,6 +52,8 @@ def run(ctx):
     rep.rule("C14.R10", "a contribution's stored initial state (q0 / u0) is written from its OWNED index set (my_qDOF / my_uDOF), the set the layout was built from", 2)
     rep.rule("C14.R9", "the name that is inserted into the registry has been tested for uniqueness after its last change", 2)
     rep.rule("C14.R7", "repeatability: marker attributes are constructor data; the unique-name counter is monotone", 12)
+    rep.rule("C14.R13", "contributions that copy their subsystem's DOF tables run the subsystem's assembler_callback first (independent of the order of the contribution list)", 3)
+    r13_subsystem_first(ctx)
     rep.rule("C14.R12", "System hands per-contribution callables (set_tau) that bind the contribution when they are created, not when they are called (K16 late binding)", 1)
     r12_closures(ctx)
     sm = sysmodel.SystemModel(ctx)
@@ -586,6 +588,66 @@ def r11_evaluation_state(ctx, sm):
         rep.ok("C14.R11", f"{SYS}:System", "no evaluation method of System writes an attribute of the system (nothing can go stale)", trivial=False)
 
 
+def r13_subsystem_first(ctx):
+    """Force laws, actuators and controllers copy qDOF / uDOF of the subsystem they act on (`self.subsystem.qDOF`).  Those tables are written
+    by the subsystem's own assembler_callback; the copy is current only if that callback has run in THIS assembly before the copy is taken.
+    System.assemble calls the callbacks in the order of the contribution list, which add / remove sequences change: a contribution that does
+    not run `self.subsystem.assembler_callback()` itself (the idiom of the force laws) reads the previous layout when its subsystem comes later
+    in the list - silently, if another body now owns those indices."""
+    from .. import protocol
+    rep = ctx.rep
+    n = 0
+    done = set()
+    for ci in ctx.model.all_classes():
+        if not ci.rel.startswith("cardillo/") or "assembler_callback" not in ci.methods:
+            continue
+        fn = ci.methods["assembler_callback"]
+        key = (ci.rel, ci.qual)
+        if key in done:
+            continue
+        done.add(key)
+        reads = [w for w in ast.walk(fn) if isinstance(w, ast.Attribute) and w.attr in ("qDOF", "uDOF") and dotted(w.value) == "self.subsystem" and isinstance(w.ctx, ast.Load)]
+        if not reads:
+            continue
+        # only subsystems that DERIVE their DOF tables in their own assembler_callback matter (joints, interactions: the scalar interface
+        # l / l_dot / W_l); a body's qDOF is written by System.assemble itself before any callback runs
+        view0 = protocol.ClassView(ctx, ci)
+        family = [d_ for d_ in ctx.model.all_classes() if d_.rel.startswith("cardillo/") and ci in protocol.ClassView(ctx, d_).mro]
+        scalar = any(isinstance(w, ast.Attribute) and w.attr in ("l", "l_dot", "W_l", "l_q", "W_l_q") and dotted(w.value) == "self.subsystem"
+                     for c_ in list(view0.mro) + family for f_ in c_.methods.values() for w in ast.walk(f_))
+        if not scalar:
+            continue
+        n += 1
+        first = min(r.lineno for r in reads)
+        C = f"{ci.rel}:{ci.qual}.assembler_callback"
+
+        def runs_first(cinfo, f, before):
+            for st in f.body:
+                if st.lineno >= before:
+                    break
+                if isinstance(st, ast.Expr) and isinstance(st.value, ast.Call):
+                    src = norm_src(st.value.func)
+                    if src == "self.subsystem.assembler_callback":
+                        return True
+                    if src == "super().assembler_callback":
+                        view = protocol.ClassView(ctx, cinfo)
+                        mro = view.mro
+                        if cinfo in mro:
+                            for cc in mro[mro.index(cinfo) + 1:]:
+                                if "assembler_callback" in cc.methods:
+                                    f2 = cc.methods["assembler_callback"]
+                                    return runs_first(cc, f2, 10**9)
+            return False
+        if runs_first(ci, fn, first):
+            rep.ok("C14.R13", C, "runs self.subsystem.assembler_callback() before copying the subsystem's DOF tables")
+        else:
+            rep.bad("C14.R13", C, reads[0], f"`{norm_src(reads[0])}` is copied without running `self.subsystem.assembler_callback()` first (the force laws do): if the subsystem stands later in "
+                    "the contribution list - after a remove / add sequence - the copy is the layout of the PREVIOUS assembly and the contribution acts on coordinates that are not its "
+                    "subsystem's (or the first assembly fails with AttributeError)", f"{ci.rel}:{reads[0].lineno}")
+    if n < 3:
+        raise AnalysisError(f"C14.R13: only {n} assembler callbacks that copy a subsystem's DOF tables found")
+
+
 def r12_closures(ctx):
     """System.set_tau distributes the control vector: every actuator gets a callable that picks ITS entries tau[contr.tauDOF].  A lambda
     created in the loop over the actuators looks `contr` up when it is called, i.e. after the loop: every actuator then reads the LAST
@@ -791,4 +853,8 @@ NEUTRAL = [
 MUTANTS += [
     dict(id="c14-r12-orig", canary=True, what="System.set_tau binds the actuator late (original defect F49)", file=SYS,
          old="                contr.tau = lambda t, contr=contr: tau(t)[contr.tauDOF]\n", new="                contr.tau = lambda t: tau(t)[contr.tauDOF]\n", expect="C14.R12"),
+]
+MUTANTS += [
+    dict(id="c14-r13-orig", canary=True, what="BaseActuator copies the subsystem's DOF tables without running its callback (original defect F51)", file="cardillo/actuators/_base.py",
+         old="        self.subsystem.assembler_callback()\n        self.qDOF = self.subsystem.qDOF\n", new="        self.qDOF = self.subsystem.qDOF\n", expect="C14.R13"),
 ]
